@@ -78,14 +78,21 @@ class Recorder:
         self.run, self.rng = run, rng
         self.traces, self.meta = [], []
         self.kinds = {}
+        self.bands = {}
+        self.threshold = None
 
     def record(self, what, model, scene, closed, outline):
         geom = scene["geom"][model]
-        evs = dc.outline_events(model, geom, closed, outline[1], outline[2])
+        evs = dc.outline_events(model, geom, closed, outline[1], outline[2], ideal=scene["ideal"])
         self.traces.append(dict(model=model, word=scene["word"], verts=scene["verts"], closed=closed, events=evs))
         self.meta.append(dict(what=what, artist=outline[0], expect=["arc" if e["kind"] == "arc" else "straight" for e in geom["edges"]]))
         for e in geom["edges"]:
             self.kinds[(model, e["kind"])] = self.kinds.get((model, e["kind"]), 0) + 1
+            if "r2" in e and self.threshold:            # edges on circles of radius within a factor 2 of the threshold
+                q = dc.rat(e["r2"]) / self.threshold ** 2
+                if 0.25 < q < 4:
+                    k = ("polygon" if what == "polygon" else "segment", model, "below" if q < 1 else "above")
+                    self.bands[k] = self.bands.get(k, 0) + 1
 
     def draw_batch(self, d, model, what, batch):
         """draw the scenes of `batch` (same number of vertices) as ONE composite object and record the outlines"""
@@ -459,7 +466,7 @@ def run(run, replay=None):
     run.rule = ("one case per composite draw call (scene batch x model) and per point / horosphere scene x model; every outline found in "
                 "drawing.ax is one trace validated by TLC against DrawPathTrace; distinct_nontrivial = distinct draw calls")
     run.assumptions += [
-        "objects: points of the perfect-square integer universe (entries <= 11 before, <= 60 after the transformation), polygons with 3..8 "
+        "objects: points of the perfect-square integer universe (box entries <= 7, special and band points <= 29; <= 60 after the transformation), polygons with 3..8 "
         "distinct vertices (interior and ideal, convex or not), segments, geodesics, horospheres; transformations: words of length <= 2 in the "
         "exact atoms of HypIso",
         "half-plane objects inside the default window (|x| <= 6, y <= 8), no vertex at infinity; radius = threshold exactly excluded",
@@ -469,13 +476,16 @@ def run(run, replay=None):
     run.extra["radius_threshold"] = threshold
     path_machine(run)
     rec = Recorder(run, rng)
+    rec.threshold = threshold
     if quick:
         plan = [dict(name="scenes_pairs", B=5, core_=2, maxword=0, maxverts=2),
                 dict(name="scenes_triangles", B=5, core_=1, maxword=0, maxverts=3),
-                dict(name="scenes_sim", B=5, core_=3, maxword=2, maxverts=8, simulate=14, depth=11)]
+                dict(name="scenes_bands", B=5, core_=4, maxword=0, maxverts=3),
+                dict(name="scenes_sim", B=5, core_=3, maxword=2, maxverts=8, simulate=10, depth=11)]
     else:
         plan = [dict(name="scenes_triangles", B=7, core_=2, maxword=0, maxverts=3),
                 dict(name="scenes_pairs_words", B=5, core_=1, maxword=1, maxverts=2),
+                dict(name="scenes_bands", B=5, core_=4, maxword=1, maxverts=3),
                 dict(name="scenes_sim", B=7, core_=3, maxword=2, maxverts=8, simulate=150, depth=11)]
     nsc = 0
     for p in plan:
@@ -492,8 +502,15 @@ def run(run, replay=None):
         for kd in ("arc", "chord", "line"):
             if not rec.kinds.get((m, kd)):
                 raise core.MachineryFailure("vacuous: no %s edge was drawn in the %s model" % (kd, m))
+    run.extra["edges_within_factor_2_of_threshold"] = {"%s/%s/%s" % k: v for k, v in sorted(rec.bands.items())}
+    if threshold == 80:
+        for what in ("segment", "polygon"):
+            for m in ("poincare", "halfplane"):
+                for side in ("below", "above"):
+                    if not rec.bands.get((what, m, side)):
+                        raise core.MachineryFailure("vacuous: no %s edge with radius just %s the threshold was drawn in the %s model" % (what, side, m))
     if quick:
-        pplan = [dict(name="proj_sim", BP=2, maxverts=6, simulate=15, depth=7)]
+        pplan = [dict(name="proj_sim", BP=2, maxverts=6, simulate=10, depth=7)]
     else:
         pplan = [dict(name="proj_triangles", BP=1, maxverts=3), dict(name="proj_sim", BP=3, maxverts=8, simulate=100, depth=9)]
     dims = None
